@@ -116,7 +116,7 @@ fn key_name(i: usize) -> String {
 fn gen_program(seed: u64, id: u64, focus: &str, thorough: bool) -> Program {
     let mut rng = Rng::derive(seed ^ 0xC0C0, id);
     let family: &'static str = match focus {
-        "C05" => *rng.pick(&["readwrite", "readwrite", "read-vs-rewrites", "writers"]),
+        "C05" => *rng.pick(&["readwrite", "readwrite", "read-vs-rewrites", "writers", "write-then-read"]),
         "C17" => "readwrite",
         "C06" => *rng.pick(&["readwrite", "writers", "readers-long"]),
         "C07" => *rng.pick(&["writers", "writers", "abort"]),
@@ -165,6 +165,9 @@ fn gen_program(seed: u64, id: u64, focus: &str, thorough: bool) -> Program {
         let mut n = 1 + usize::from(rng.chance(1, 3)) + usize::from(thorough && rng.chance(1, 4));
         if family == "read-vs-rewrites" {
             n = if w == 0 { 1 } else { 3 };
+        }
+        if family == "write-then-read" {
+            n = 2;
         }
         let mut ops = Vec::new();
         for _ in 0..n {
@@ -228,6 +231,21 @@ fn gen_program(seed: u64, id: u64, focus: &str, thorough: bool) -> Program {
                     }
                 }
                 "writers" => writer_op(&mut rng, &setup),
+                "write-then-read" => {
+                    // every worker overwrites the hot key with its own content and then reads it:
+                    // once its put has returned, the read shows that value or a later writer's,
+                    // never the one from before
+                    if ops.is_empty() {
+                        WOp::Put { key: hot_key, content: w % 3, two_chunks: false }
+                    } else {
+                        match rng.below(4) {
+                            0 => WOp::GetSize { key: hot_key },
+                            1 => WOp::GetRange { key: hot_key, start: 0, end: u64::MAX },
+                            2 => WOp::Reader { key: hot_key },
+                            _ => WOp::Get { key: hot_key },
+                        }
+                    }
+                }
                 "checkpointing" => {
                     // explicit checkpoints against writers: the bookkeeping must come out exact
                     // wherever a mutation lands relative to the checkpoint's phases
